@@ -7,7 +7,6 @@ import (
 	"io/fs"
 	"os"
 	"path/filepath"
-	"runtime"
 	"sort"
 	"strconv"
 	"strings"
@@ -583,7 +582,7 @@ func (m *monitor) runStates() {
 		}
 	}
 	results := make([]stateResult, len(jobs))
-	nw := runtime.GOMAXPROCS(0)
+	nw := par()
 	var wg sync.WaitGroup
 	ch := make(chan job, 64)
 	for w := 0; w < nw; w++ {
